@@ -3,6 +3,7 @@ pub mod echo;
 pub mod edit;
 pub mod enc;
 pub mod esc;
+pub mod h5;
 pub mod hash;
 pub mod nsprobe;
 pub mod pass;
@@ -25,6 +26,7 @@ pub fn find(name: &str) -> Option<LaneFn> {
         "edit" => edit::run,
         "enc" => enc::run,
         "esc" => esc::run,
+        "h5" => h5::run,
         "hash" => hash::run,
         "nsprobe" => nsprobe::run,
         "pass" => pass::run_lane,
